@@ -187,7 +187,7 @@ func (qc queueCaller) PipelineRecv(ctx context.Context, transform []capnp.Pipeli
 			path:  clientPathFromTransform(transform),
 			Recv:  r,
 		})
-		basis := len(qc.aq.q) - 1
+		basis := len(qc.aq.q) // bases[i+1] is the result of q[i]
 		qc.aq.mu.Unlock()
 		verifhook.Yield(226)
 		return queueCaller{aq: qc.aq, basis: basis}
